@@ -43,11 +43,45 @@ PROPS = {
              '(EventAddBlock) and local del set (EventDelBlock) for every execution of the same term, and equality with the '
              "reference semantics' prediction. Recorded runs are validated by the trace specification Exec_Trace (same "
              '(block, prior) => same digest).',
-        note='All index plugins enabled in half of the runs (stat, mvcc, addrfeeindex); goroutine schedules are varied only '
+        note='Index plugins stat and addrfeeindex additionally enabled in half of the runs (the executor-side MVCC stays off: with it the genesis version record is stored as an empty value and block 1 cannot be executed at all); goroutine schedules are varied only '
              'through GOMAXPROCS, repetitions and prior activity (no scheduler control); signature verification of '
              'types/block.go is exercised by the connected blocks only (self-produced blocks skip it).',
     ),
 }
+
+
+def _coverage_ok(ctx, res, allow=()):
+    """-coverage 1: an action of Next that was never taken makes the run vacuous."""
+    zeros = [z for z in res.get('zero_actions', []) if not any(a in z for a in allow)]
+    if zeros:
+        raise vlib.Broken('vacuous exhaustive run, actions never taken: %s' % zeros[:5])
+
+
+def _replay_selftest(ctx, b, bs, opts, field='tys'):
+    """Binding self-test (anti-vacuity): a behaviour whose predicted receipt types are corrupted must be refused."""
+    for beh in bs:
+        steps = json.loads(json.dumps(beh['steps']))
+        ends = [s for s in steps if s.get('op') == 'EndBlock' and not s['ret'].get('rej') and s['ret'].get('tys')]
+        if not ends:
+            continue
+        e = ends[0]
+        e['ret']['tys'][0] = 'pack' if e['ret']['tys'][0] == 'ok' else 'ok'
+        e.pop('alt', None)
+        bad = dict(beh, id=beh['id'] + '-selftest', steps=steps)
+        saved = list(ctx.mismatches)
+        ctx.replay(b, [bad], opts=opts, par=1, count=False, name='selftest-%d.ndjson' % len(os.listdir(ctx.scratch)))
+        new = ctx.mismatches[len(saved):]
+        ctx.mismatches = saved
+        for m in new:
+            try:
+                os.remove(m.get('replay', ''))
+            except OSError:
+                pass
+        if not new:
+            raise vlib.Broken('binding self-test failed: a behaviour with a corrupted prediction was accepted')
+        ctx.extra['selftest_corrupted_behaviour_refused'] = True
+        return
+    ctx.notes.append('replay self-test: no behaviour with a connected block')
 
 
 def _c11(ctx, b, q):
@@ -57,10 +91,127 @@ def _c11(ctx, b, q):
                 'one of those keys; distinct by abstract action sequence')
     ctx.assumptions += ['synthetic executors registered through dapp.Register', 'height after all forks (title local)',
                         'TLC bounds: 2+2 keys, <=4 items, groups <=3, 2 blocks']
-    ctx.tlc_mc('Exec_MC', 'Exec_MC.cfg', workers=4, timeout=3600)
-    n = 300 if q else 2500
-    bs = ctx.tlc_sim('Exec_MC', 'Exec_C11_Gen.cfg', num=n, depth=70, keep_init=True, timeout=3600)
-    ctx.replay(b, bs, opts=dict(plugins='default'), par=6, timeout=7200)
+    if q:
+        ctx.tlc_mc('Exec_MC', 'Exec_MC.cfg', workers=4, timeout=3600)
+    else:
+        res = ctx.tlc_mc('Exec_MC', 'Exec_MCt.cfg', workers=6, timeout=14400, coverage=True)
+        _coverage_ok(ctx, res, allow=('Run', 'Activity', 'TxReject'))
+    n = 300 if q else 2000
+    bs = ctx.tlc_sim('Exec_MC', 'Exec_C11_Gen.cfg', num=n, depth=70, keep_init=True, timeout=7200)
+    third = len(bs) // 3
+    ctx.replay(b, bs[third:], opts=dict(plugins='default'), par=6, timeout=14400)
+    ctx.replay(b, bs[:third], opts=dict(plugins='all', salt=3), par=6, timeout=14400)
+    if not q:
+        for sd in range(1, 4):
+            bs2 = ctx.tlc_sim('Exec_MC', 'Exec_C11_Gen.cfg', num=n // 2, depth=70, keep_init=True, timeout=7200, seed=ctx.seed * 100 + sd)
+            ctx.replay(b, bs2, opts=dict(plugins='default' if sd % 2 else 'all', salt=sd), par=6, timeout=14400)
+        # a fresh node for every behaviour (no state shared with earlier behaviours)
+        ctx.replay(b, bs[:60], opts=dict(plugins='default', fresh=1), par=4, timeout=14400, count=False)
+    _replay_selftest(ctx, b, bs[:40], dict(plugins='default'))
+
+
+def _c12(ctx, b, q):
+    ctx.rule = ('behaviours = (a) every row executor name x key (namespace x deposit area x friend mark, malformed) x reporting mode '
+                'as a one-transaction block, exhaustively exported by TLC, on the main chain and on the para chain; (b) TLC simulation '
+                'of 1-2 blocks of <=3 items over the same keys; non-trivial = a transaction writing a key that is not a plain key of its '
+                'own namespace / own local prefix; distinct by abstract action sequence')
+    ctx.assumptions += ['IsFriend of the synthetic executors approves marked keys only; real executors approve nothing for them',
+                        'height after ForkExecKey', 'TLC bounds: 7 namespaces x 5 deposit areas x friend mark + malformed keys, 5 names']
+    if q:
+        ctx.tlc_mc('Exec_MC', 'Exec_C12_MC.cfg', workers=4, timeout=3600)
+    else:
+        res = ctx.tlc_mc('Exec_MC', 'Exec_C12_MCt.cfg', workers=6, timeout=14400, coverage=True)
+        _coverage_ok(ctx, res, allow=('Run', 'Activity', 'TxRead("L"', 'TxList', 'TxFail', 'TxLocalFail'))
+    rows, oks = 0, 0
+    first = None
+    for cfg, para in (('Exec_C12_AllS.cfg', 0), ('Exec_C12_AllSp.cfg', 1), ('Exec_C12_AllL.cfg', 0), ('Exec_C12_AllLp.cfg', 1)):
+        allb = ctx.tlc_genall('Exec_All', cfg, timeout=7200)
+        first = first or allb
+        rows += len(allb)
+        oks += sum(1 for x in allb if x['steps'][-1]['ret'].get('tys') == ['ok'])
+        for salt in range(0, 1 if q else 4):
+            ctx.replay(b, allb, opts=dict(para=para, salt=salt + ctx.seed % 7), par=6, timeout=14400, count=(salt == 0))
+    ctx.extra['exhaustive_tables'] = dict(rows=rows, rows_predicted_ExecOk=oks, cfgs='Exec_C12_All{S,Sp,L,Lp}.cfg',
+                                          note='exhaustive over the abstract rows; the byte spelling of each class is sampled per salt')
+    n = 150 if q else 1200
+    for cfg in ('Exec_C12_Gen.cfg', 'Exec_C12_Genp.cfg'):
+        bs = ctx.tlc_sim('Exec_MC', cfg, num=n, depth=60, keep_init=True, timeout=7200)
+        ctx.replay(b, bs, opts=dict(salt=ctx.seed % 5), par=6, timeout=14400)
+    _replay_selftest(ctx, b, first[:40], dict(para=0))
+
+
+def _validate_det(ctx, b, opts):
+    """record -> Exec_Trace; a rejected trace is a disagreement; then the binding self-test: one digest of a
+    repeated execution is altered and TLC must reject the trace."""
+    tp, s = ctx.record(b, 'det', opts, timeout=14400)
+    r = ctx.tlc_trace('Exec_Trace', 'Exec_Trace.cfg', tp, timeout=3600)
+    ctx.states += r['states']
+    if r['accepted']:
+        ctx.traces += s.get('behaviours', 1)
+        ctx.evaluations += s.get('behaviours', 1)
+        ctx.nontrivial += s.get('nontrivial', 0)
+        for x in (s.get('samples') or [])[:1]:
+            ctx.samples.append(x)
+        ctx.extra['recorded_executions'] = (ctx.extra.get('recorded_executions', 0) + (s.get('counters') or {}).get('executions', 0))
+    else:
+        lines = [l for l in open(tp) if l.strip()]
+        m = r['matched'] or 0
+        failing = json.loads(lines[m]) if m < len(lines) else None
+        keep = os.path.join(vlib.REPLAYS, '%s-Exec-trace-%d.json' % (ctx.prop, ctx.seed))
+        sig = 'trace|det|event=%s|proc=%s|gmp=%s' % ((failing or {}).get('ev'), (failing or {}).get('proc'), (failing or {}).get('gmp'))
+        json.dump(dict(property=ctx.prop, family='Exec', seed=ctx.seed, tier=ctx.tier, opts=opts,
+                       extra=dict(kind='trace', recorder='det', module='Exec_Trace', cfg='Exec_Trace.cfg', matched=m, failing_event=failing,
+                                  prefix=[json.loads(l) for l in lines[max(0, m - 40):m + 1]]), signature=sig), open(keep, 'w'), indent=1)
+        ctx.mismatches.append(dict(signature=sig, replay=keep, expected='same (prior, block) => same digest',
+                                   observed='rejected at event %d: %s' % (m, json.dumps(failing)[:300]), field='trace'))
+        return
+    seen = set()
+
+    def mutate(ev):
+        return False
+    lines = [json.loads(l) for l in open(tp) if l.strip()]
+    idx = None
+    for i, ev in enumerate(lines):
+        if ev.get('ev') == 'Reset':
+            seen = set()
+        if ev.get('ev') == 'Run':
+            k = (ev['prior'], ev['blk'])
+            if k in seen:
+                idx = i
+            seen.add(k)
+    if idx is None:
+        raise vlib.Broken('recorded trace has no repeated execution to corrupt')
+    lines[idx]['dig'] = lines[idx]['dig'] + 1000
+    bad = tp + '.bad'
+    with open(bad, 'w') as f:
+        for l in lines:
+            f.write(json.dumps(l) + '\n')
+    r2 = ctx.tlc_trace('Exec_Trace', 'Exec_Trace.cfg', bad, timeout=3600)
+    if r2['accepted']:
+        raise vlib.Broken('binding self-test failed: a trace with a differing digest was accepted by Exec_Trace')
+    ctx.extra['selftest_corrupted_trace_rejected'] = True
+
+
+def _c13(ctx, b, q):
+    ctx.rule = ('behaviours = TLC simulation of Exec.tla with Run / Activity steps: every block is executed under several '
+                'conditions (process fresh|long-running x GOMAXPROCS 1|2|16, 5 repetitions each) interleaved with process-local '
+                'activity, then connected; non-trivial = the same (prior chain, block) term executed under >= 2 differing conditions; '
+                'recorded random scenarios (larger blocks, coins / none / user.* transactions, plugins on and off) validated by Exec_Trace')
+    ctx.assumptions += ['goroutine schedules varied only through GOMAXPROCS, repetition and prior activity',
+                        'blocks are rebuilt byte-identically in every process (fixed nonces, deterministic signatures)',
+                        'executor-side MVCC plugin off (it cannot execute block 1 at all)']
+    if q:
+        ctx.tlc_mc('Exec_MC', 'Exec_C13_MC.cfg', workers=4, timeout=3600)
+    else:
+        res = ctx.tlc_mc('Exec_MC', 'Exec_C13_MCt.cfg', workers=6, timeout=14400, coverage=True)
+        _coverage_ok(ctx, res, allow=('TxReject', 'TxList', 'TxLocalFail'))
+    n = 16 if q else 100
+    bs = ctx.tlc_sim('Exec_MC', 'Exec_C13_Gen.cfg', num=n, depth=45, keep_init=True, timeout=7200)
+    half = len(bs) // 2
+    ctx.replay(b, bs[:half], opts=dict(plugins='all', fresh=1, reps=5), par=4, timeout=28800)
+    ctx.replay(b, bs[half:], opts=dict(plugins='default', fresh=1, reps=5), par=4, timeout=28800)
+    _validate_det(ctx, b, dict(n=3 if q else 14, reps=5, salt=ctx.seed % 97))
+    _replay_selftest(ctx, b, bs[:10], dict(plugins='default', fresh=1, reps=2))
 
 
 def run(ctx):
@@ -68,6 +219,10 @@ def run(ctx):
     b = vlib.build(DRIVER)
     if ctx.prop == 'C11':
         _c11(ctx, b, q)
+    elif ctx.prop == 'C12':
+        _c12(ctx, b, q)
+    elif ctx.prop == 'C13':
+        _c13(ctx, b, q)
 
 
 import vlib  # noqa: E402
